@@ -30,7 +30,7 @@ def params(r, beh):
 
 
 def summarize(o):
-    return {"result": list(o["result"]), "writes": len(o["written"]),
+    return {"result": list(o["result"]), "is_error": o["is_error"], "writes": len(o["written"]),
             "sends": sum(1 for t in o["trace"] if t[0] == "send" and t[2] != "notconn"), "want_tid": o["want_tid"], "unit": o["unit"], "fc": o["fc"],
             "expected": o["expected"], "surplus_before": o["surplus_before"], "refused": o["refused"],
             "delivered": [list(m) for m in o["delivered"]], "full_frame": o["full_frame"],
@@ -139,7 +139,9 @@ def client_suites(tier, chk, extra=()):
                         [make_case(s, "special") for s in special_specs(tier)]
                         + [make_case(s, "peer-close") for s in peer_close_specs()]
                         + [make_case(s, "malformed-pdu") for s in malformed_pdu_specs()]
-                        + [make_case(s, "sizes") for s in size_specs()])
+                        + [make_case(s, "sizes") for s in size_specs()]
+                        + [make_case(s, "slow") for s in slow_specs()]
+                        + [make_case(s, "timeout0") for s in timeout0_specs()])
     a, b = _cache[tier]
     b = b + [make_case(s, "special") for s in extra]
     return [Suite("scripts", IMPORTS, "%s code" % chk, a, shard=120),
@@ -256,7 +258,7 @@ def paired(kind, t, res):
 def spec_answer(budget, roe, roi, behs):
     late = False
     for b in behs:
-        if b == "full":
+        if b in ("full", "slow"):
             return True
         if b == "exc":
             return None if late else False
@@ -291,13 +293,17 @@ def failing_txns(pid, desc):
         res = t["result"]
         behs = [b for b, _ in tx.get("script", [])]
         bcast = bool(spec.get("bcast")) and t["unit"] == 0
+        want_err = {"reply": (res[3] >= 129) if res[0] == "reply" else None, "err": True}.get(res[0])
+        if t.get("is_error") != want_err:
+            out.append(i)
+            continue
         if pid == "C08":
             ok = True
             if not (bcast or t["refused"]):
                 if res[0] == "reply":
                     ok = paired(kind, t, res) and list(res[1:]) in t["delivered"]
                 first = behs[0] if behs else "full"
-                want = {"full": True, "exc": False}.get(first)
+                want = {"full": True, "slow": True, "exc": False}.get(first)
                 if first == "wrongthenown" and not spec.get("roi"):
                     want = False
                 ok = ok and expected_ok(kind, t, want)
@@ -436,6 +442,46 @@ def size_specs():
                               txs=[dict(req=n, unit=UNITS[i % 4], script=[("full", {})]),
                                    dict(req=n, unit=UNITS[i % 4], script=[("exc", {})]),
                                    dict(req=names[(i * 5 + 2) % len(names)], unit=UNITS[i % 4], script=[])]))
+    return specs
+
+
+NOSIZE = ["mask_write", "exc_status", "evt_counter", "evt_log", "slave_id", "read_file", "write_file"]
+
+
+def slow_specs():
+    """the correct reply arriving in two bursts 50 ms apart (in_waiting grows between two polls of the serial client's
+    _wait_for_data; the TCP deadline loop gets two recv results): every stream client kind x every request type —
+    those without get_response_pdu_size are read with recv(None) on the serial framings — at several cut points"""
+    specs = []
+    i = 0
+    for kind in L.KINDS:
+        if kind == "udp":
+            continue
+        reqs = [q for q in REQS if q != "write_coil"] if L.FRAMING[kind] == "FBin" else REQS
+        for req in reqs:
+            for k in (2, 3, 5, 6, 9):
+                i += 1
+                if req not in NOSIZE and i % 3:
+                    continue
+                flags = FLAGS[i % 4]
+                specs.append(dict(kind=kind, retries=(0, 1)[i % 2], roe=flags[0], roi=flags[1], tid0=TIDS[i % len(TIDS)],
+                                  txs=[dict(req=req, unit=UNITS[i % 4], script=[("slow", {"k": k})]),
+                                       dict(req=reqs[(i + 3) % len(reqs)], unit=UNITS[i % 4], script=[])]))
+    return specs
+
+
+def timeout0_specs():
+    """serial clients opened with timeout=0 (non-blocking port): _wait_for_data polls without a deadline until the
+    bytes stop growing; a complete reply that is already there must be returned"""
+    specs = []
+    i = 0
+    for kind in ("rtu", "ascii", "binary"):
+        reqs = [q for q in REQS if q != "write_coil"] if kind == "binary" else REQS
+        for req in reqs:
+            i += 1
+            specs.append(dict(kind=kind, retries=0, roe=False, roi=False, tid0=TIDS[i % len(TIDS)], timeout=0,
+                              txs=[dict(req=req, unit=UNITS[i % 4], script=[("full", {})]),
+                                   dict(req=req, unit=UNITS[i % 4], script=[("exc", {})])]))
     return specs
 
 
